@@ -57,8 +57,14 @@ func init() {
 		res["rcpt"] = rc
 		r, how = say("DATA\r\n", lmtpFinal(1))
 		res["data"] = b2s([]byte(r))
-		if how != "ok" || !strings.HasPrefix(r, "354") {
+		if how != "ok" {
 			res["how"] = "data:" + how
+			return res
+		}
+		if !strings.HasPrefix(r, "354") {
+			// no recipient was accepted ("503 Please send RCPT TO first"): no message is sent
+			res["final"] = []string{}
+			res["how"] = "no-data"
 			return res
 		}
 		sentinel := func(b []byte, eof bool) bool {
